@@ -24,6 +24,9 @@ def legs(ctx):
         dict(name="native", flavor="release", cases=300000, workers=10, extra=["--exhaustive", "0", "--utf8-cases", "2000000"]),
         dict(name="exhaustive-len0-3-and-4byte-leads", flavor="release", cases=10, workers=1, extra=["--exhaustive", "4", "--utf8-cases", "10"]),
         dict(name="asan", flavor="asan", cases=60000, workers=4, extra=["--exhaustive", "0", "--utf8-cases", "300000"]),
+        dict(name="libfuzzer-c16_views", flavor="fuzz", target="c16_views", runs=1500000, workers=1),
+        dict(name="libfuzzer-c16_utf8", flavor="fuzz", target="c16_utf8", runs=6000000, workers=1),
+        dict(name="miri", flavor="miri", cases=40, workers=1, extra=['--exhaustive', '0', '--utf8-cases', '200']),
     ]
 
 
